@@ -216,6 +216,7 @@ void rawClient(std::vector<Spec*> group)
 	}
 	std::string buf;
 	bool alive = true;
+	double connectedAt = sim::simNow();
 	for (size_t gi = 0; gi < group.size(); gi++)
 	{
 		Spec* s = group[gi];
@@ -249,6 +250,8 @@ void rawClient(std::vector<Spec*> group)
 			alive = false;
 			continue;
 		}
+		if (gi > 0 && sim::simNow() - connectedAt < 6.0)
+			s->cSentOnKeptAlive = true;
 		RawResponse rr = rawReadResponse(fd, buf, 60.0);
 		s->cGot = rr.anyByte;
 		s->cNote = rr.note;
@@ -429,6 +432,11 @@ void runHttp(const Plan& p)
 		{
 			// kept-alive connection: the server may have left its loop (10 s budget) - then nothing at all may have come back
 			sim::probe("keepalive_request_not_served");
+			// the server announced keep-alive, its 10 s connection budget was far from used up and the request was sent in full:
+			// nothing entitles it to ignore this request
+			if (s.cSentOnKeptAlive)
+				sim::fail("handler_mismatch", "keepalive_request_ignored", "request %d (%s %s) was sent on a connection the server had kept alive %s and got no handler call (client: %s)", s.id, s.method.c_str(),
+				          s.chunkedUpload ? "chunked" : "with length", "less than 6 simulated seconds after connecting", s.cNote.c_str());
 			if (s.cGot)
 				sim::fail("response_mismatch", "keepalive_partial", "request %d on a kept-alive connection: handler not invoked but response bytes arrived", s.id);
 			continue;
